@@ -1,7 +1,9 @@
 (* C15 — Kind-aware queries of a typed tree equal filtering the child list by kind.
    Statements only; proofs are in theories/Forest/NavProofs.v. *)
+From Coq Require Import String.
 From Coq Require Import List ZArith Bool.
-From NT Require Import Sx Rose Nav NavProofs.
+From NT Require Import Sx Rose Nav NavProofs NavSource.
+From NTGen Require Import Generated.
 Import ListNotations.
 
 (* children of a kind, first/last child of a kind, has-children of a kind:
@@ -70,6 +72,62 @@ Theorem C15_iter_by_type : forall (f : forest) (k : text),
   t_iter_by_type f (Some k) = filter (kind_is k) (pre_f f) /\ t_iter_by_type f None = pre_f f.
 Proof. intros f k. split; [exact (typed_iter_by_type f k)|exact (typed_iter_any f)]. Qed.
 Print Assumptions C15_iter_by_type.
+
+(* ================================================================== *)
+(* Source tie: lexical facts lifted from nutree/typed_tree.py            *)
+(* (Generated.v, section NAV) agree with what the model computes         *)
+(* ================================================================== *)
+
+(* the typed position accessors find the node BY IDENTITY (`is self` / Node.get_index(self)) in
+   self._parent._children, never by ==/in/list.index; every `==` they contain compares kinds *)
+Theorem C15_source_identity_and_kind_compares : GEN_NAV_OK = true /\ typed_identity_ok = true.
+Proof. exact typed_identity_holds. Qed.
+Print Assumptions C15_source_identity_and_kind_compares.
+
+(* has_children(kind): the comparison `len(self.get_children(kind)) <op> <k>` of the source, evaluated, is the model *)
+Theorem C15_source_has_children : forall (ch : list rt) (k : text),
+  cmp_eval NAV_T_HAS_CHILDREN_OP (Z.of_nat (length (t_get_children ch (Some k)))) NAV_T_HAS_CHILDREN_K
+  = Some (t_has_children ch (Some k)).
+Proof. exact typed_has_children_agrees. Qed.
+Print Assumptions C15_source_has_children.
+
+(* next_sibling: guard `own_idx <op> pc_len + <k>` and scan start `own_idx + <s>` of the source give the model *)
+Theorem C15_source_next_sibling : forall (c : ctx) (any : bool) (i : nat),
+  index_of (rid (c_self c)) (c_sibs c) = Some i ->
+  t_next c any =
+  match cmp_eval NAV_T_NEXT_GUARD_OP (Z.of_nat i) (Z.of_nat (length (c_sibs c)) + NAV_T_NEXT_GUARD_ADD)%Z with
+  | Some true => find (fun t => any || same_kind t (c_self c))
+                      (skipn (Z.to_nat (Z.of_nat i + NAV_T_NEXT_RANGE_START)) (c_sibs c))
+  | _ => None
+  end.
+Proof. exact typed_next_agrees. Qed.
+Print Assumptions C15_source_next_sibling.
+
+(* prev_sibling: guard `own_idx <op> <k>`, downward scans to index 0 inclusive (also in last_child) *)
+Theorem C15_source_prev_sibling : forall (c : ctx) (any : bool) (i : nat),
+  index_of (rid (c_self c)) (c_sibs c) = Some i ->
+  t_prev c any =
+  match cmp_eval NAV_T_PREV_GUARD_OP (Z.of_nat i) NAV_T_PREV_GUARD_K with
+  | Some true => find (fun t => any || same_kind t (c_self c)) (rev (firstn i (c_sibs c)))
+  | _ => None
+  end /\
+  NAV_T_PREV_RANGE = [-1; -1; -1]%Z /\ NAV_T_LAST_CHILD_RANGE = [-1; -1; -1]%Z.
+Proof. exact typed_prev_agrees. Qed.
+Print Assumptions C15_source_prev_sibling.
+
+(* the ANY_KIND / any_kind=True branches index the full list at the literal subscripts of the source *)
+Theorem C15_source_subscripts : forall (c : ctx) (ch : list rt),
+  t_first_child ch None = py_at ch (sub_lit "TypedNode.first_child") /\
+  t_last_child ch None = py_at ch (sub_lit "TypedNode.last_child") /\
+  t_first_sibling c true = py_at (c_sibs c) (sub_lit "TypedNode.first_sibling") /\
+  t_last_sibling c true = py_at (c_sibs c) (sub_lit "TypedNode.last_sibling") /\
+  t_is_first c true = match py_at (c_sibs c) (sub_lit "TypedNode.is_first_sibling") with
+                      | Some t => is_self (rid (c_self c)) t | None => false end /\
+  t_is_last c true = match py_at (c_sibs c) (sub_lit "TypedNode.is_last_sibling") with
+                     | Some t => is_self (rid (c_self c)) t | None => false end /\
+  sub_var "TypedNode.prev_sibling" = 0%Z /\ sub_var "TypedNode.next_sibling" = 0%Z /\ sub_var "TypedNode.last_child" = 0%Z.
+Proof. exact typed_subscripts_agree. Qed.
+Print Assumptions C15_source_subscripts.
 
 (* non-vacuity: a forest with mixed kinds meets the hypotheses, and the
    kind filter really drops siblings *)
